@@ -23,6 +23,12 @@ func runC18(c *sim.Ctx, t *testing.T) {
 	sim.Install(c)
 	defer sim.Uninstall()
 	cfg := genCfg{native: true, stubs: true, failOps: true, nullRet: true, permanents: true, guards: true, guardEmits: true, loops: true, maxNodes: 5, inPlace: true, errorNode: true}
+	// Fault (a sixth of the runs; programs with native code only, which ignores the context, so
+	// nothing else changes): the host's context is already over while the machines are stepped.
+	deadCtx := c.Chance(1, 6, "deadcontext")
+	if deadCtx {
+		cfg.nativeOnly = true
+	}
 	gs := genSpec(c, cfg)
 	spec, err := compile(gs)
 	if err != nil {
@@ -30,6 +36,12 @@ func runC18(c *sim.Ctx, t *testing.T) {
 		return
 	}
 	ctx := context.Background()
+	if deadCtx {
+		cctx, cancel := context.WithCancel(ctx)
+		cancel()
+		ctx = cctx
+		c.Count("runs_under_a_cancelled_context")
+	}
 	if c.Chance(1, 3, "copiedspec") {
 		// a host that derives a new version from a loaded spec: copy, compile, use the copy
 		// (same error settings: Spec.Copy leaves them behind)
@@ -61,6 +73,12 @@ func runC18(c *sim.Ctx, t *testing.T) {
 			for q := 0; q < 8+c.Intn(5, "nperm"); q++ {
 				start.Bs[fmt.Sprintf("cfg%d!", q)] = float64(q)
 			}
+		}
+		if c.Chance(1, 6, "oddnames") {
+			// permanent names that themselves end in "!!" or are just "!"
+			start.Bs["k!!"] = "odd"
+			start.Bs["wow!!"] = 2.0
+			start.Bs["!"] = true
 		}
 		if c.Chance(1, 6, "wasaterror") {
 			// ... or one that has been to the error node before and still carries its diagnostics
